@@ -7,7 +7,8 @@ knows nothing about how the tables are managed:
   * a compilation either yields a program or reports at least one error (or raises an LPC error);
   * at end_new_file the locals bookkeeping is back to its initial configuration and every permanent identifier
     touched by local declarations has its sem_value back and no local binding;
-  * the probe program compiled before and after has the same structural dump (exploration part of the property).
+  * the probe program compiled before and after has the same structural dump, and the adaptive probe (tiny programs
+    mentioning every identifier the input declared) has the same outcome as in a pristine process (exploration part).
 -/
 import NV.C02.Model
 
@@ -23,6 +24,8 @@ inductive Line
   | probe (rest : String)
   | crashLine (s : String)
   | truncated
+  | aprobeDiff (s : String)
+  | baseOdd (s : String)
   | other (s : String)
   deriving Repr
 
@@ -32,14 +35,18 @@ def exemptName (n : String) : Bool := n == "mem.req"
 def okOut : Out → Bool
   | .ev name c s => if exemptName name then decide (0 ≤ c ∧ c < numAreas) else decide (0 ≤ c ∧ c ≤ s)
   | .ident lnumNew _ _ _ _ _ => decide (0 ≤ lnumNew)
-  | .identEnd _ delta lnum => decide (delta = 0 ∧ lnum = -1)
+  | .identBind _ after _ _ _ _ _ => decide (0 ≤ after)
+  | .identClean _ delta => decide (delta = 0)
+  | .identEnd _ delta fn glob cls lnum => decide (delta = 0 ∧ fn = -1 ∧ glob = -1 ∧ cls = -1 ∧ lnum = -1)
   | .localsEnd cur max lOff tOff => decide (cur = 0 ∧ max = 0 ∧ lOff = 0 ∧ tOff = 0)
   | .crash _ => false
 
 def describe : Out → String
   | .ev name c s => s!"cursor-outside-allocation {name} cursor={c} size={s}"
   | .ident l _ n _ _ _ => s!"negative-local-number {n} {l}"
-  | .identEnd n d l => s!"ident-not-restored {n} delta={d} local={l}"
+  | .identBind k a _ n _ _ _ => s!"negative-binding {k} {n} {a}"
+  | .identClean n d => s!"ident-not-restored-by-cleanup {n} delta={d}"
+  | .identEnd n d f g c l => s!"ident-not-restored {n} delta={d} fn={f} glob={g} cls={c} local={l}"
   | .localsEnd c m lo t => s!"locals-not-reset cur={c} max={m} name={lo} type={t}"
   | .crash w => s!"crash {w}"
 
@@ -53,6 +60,8 @@ def judge (ls : List Line) : List String :=
   let v2 := ls.filterMap (fun l => match l with
     | .crashLine s => some s!"crash {s}"
     | .result ["none"] => some "no-program-and-no-error"
+    | .aprobeDiff s => some s!"adaptive-probe-differs {s}"
+    | .baseOdd s => some s!"permanent-identifier-not-pristine {s}"
     | _ => none)
   let probes := ls.filterMap (fun l => match l with | .probe r => some r | _ => none)
   let v3 := match probes with
